@@ -56,7 +56,11 @@ func loadProgram(dir string, patterns []string) (*Program, error) {
 	}
 	for fn := range ssautil.AllFunctions(prog) {
 		if fn.Pkg == nil && fn.Origin() == nil && fn.Parent() == nil {
-			continue
+			// synthetic functions have no package; keep the wrappers of promoted methods of repository types
+			// (e.g. (*nodeNot).Next, promoted from the embedded nodeNAnd) - they are what an interface call runs
+			if !(strings.HasPrefix(fn.Synthetic, "wrapper for") && fn.Object() != nil && fn.Object().Pkg() != nil && strings.HasPrefix(fn.Object().Pkg().Path(), modPath) && fn.Signature.Recv() != nil) {
+				continue
+			}
 		}
 		k := funcKey(fn)
 		if k != "" {
